@@ -2,6 +2,7 @@ package verifsim
 
 import (
 	"fmt"
+	"os"
 	"strings"
 )
 
@@ -102,6 +103,12 @@ func c15Oracle(p *Plan) *Verdict {
 		return v
 	}
 	v.Nontrivial = n > 1
+	if p.Note != "" {
+		v.probe("shape-" + p.Note)
+		if os.Getenv("VSIM_DEBUG_SHAPE") == p.Note {
+			v.violate("debug-shape", facts, "plan of shape %s (debugging aid, never set by the driver)", p.Note)
+		}
+	}
 	for i := 0; i < n-1; i++ {
 		v.fault("history-" + p.RPCs[i].histKind())
 	}
@@ -191,7 +198,8 @@ func init() {
 			var restPool []restCase
 			if c.Prob(0.35) {
 				s2 := genService(c, "sim2")
-				s2.MaxMsg = 1 << 20
+				// the limit is a per-service option too: a message that fits one service's limit and not the other's
+				s2.MaxMsg = Pick(c, uint32(1<<20), 1<<20, 2048, 600)
 				if c.Bool() {
 					s2.Codecs = nil
 				}
@@ -206,6 +214,9 @@ func init() {
 			draw := func() *RPCPlan {
 				if len(restPool) > 0 && c.Prob(0.6) {
 					r := genRESTClientRPC(c, &cfg, restPool[c.Intn(len(restPool))])
+					if r != nil && len(r.Client.RestJSON) > 0 && c.Prob(0.4) {
+						r.Client.Compression = Pick(c, "gzip", "deflate")
+					}
 					if r != nil && c.Prob(0.25) {
 						r.Backend.Resp.Msgs, r.Backend.Resp.Err = nil, genErrSpec(c)
 					}
@@ -228,11 +239,30 @@ func init() {
 			if probe == nil {
 				return nil
 			}
+			note := ""
+			if len(cfg.Services) == 2 && cfg.Services[1].Via != "" && cfg.Services[1].Via != "private" && c.Prob(0.5) {
+				// what one service's resolver cannot name must not be lost to the other: JSON traffic on the parameter service
+				// (whose resolver knows nothing here) first, then a JSON client of the stream-shape service (global types) is
+				// told an error with typed details
+				if h := genRESTClientRPC(c, &cfg, restMethods[c.Intn(11)]); h != nil {
+					rpcs = append([]RPCPlan{*h}, rpcs...) // first: before anything else has needed the JSON codec
+				}
+				if pr := genRPC(c, ScenOpts{MaxMsgs: 1, MaxBytes: 40, NoErr: true, Forms: []string{FormREST}, Methods: []string{"RestAll", "RestAllNSE"}}); pr != nil {
+					pr.Client.Codec = "json"
+					pr.Backend.Resp.Msgs = nil
+					// (a detail type every binary knows: the point is which service's resolver is asked, not whether the type exists)
+					pr.Backend.Resp.Err = &ErrSpec{Code: c.Range(1, 16), Msg: "typed details", Details: []Detail{
+						{Type: "google.protobuf.StringValue", Value: []byte{0x0a, 0x02, 'o', 'k'}}, {Type: "google.protobuf.Int32Value", Value: []byte{0x08, 0x07}}}}
+					pr.Backend.Resp.ErrInHeaders = c.Bool()
+					probe = pr
+					note = "resolver-isolation"
+				}
+			}
 			if c.Prob(0.15) {
 				spoil(c, probe, Pick(c, "corrupt-compressed", "undecodable", "backend-garbage", "corrupt-response"))
 			}
 			rpcs = append(rpcs, *probe)
-			return &Plan{Config: cfg, RPCs: rpcs, Sched: genSched(c),
+			return &Plan{Config: cfg, RPCs: rpcs, Sched: genSched(c), Note: note,
 				Pool: PoolPlan{Policy: Pick(c, "lifo", "lifo", "random", "fifo"), Seed: c.Uint64(), Poison: c.Prob(0.6)}, StepCap: 400000}
 		},
 		Oracle:      c15Oracle,
